@@ -304,9 +304,15 @@ def oracle_c08(cid, impl, m):
                 return ("c08-mirror", f"entry {i}: allowed but mirror endpoint answered {x}")
             if x == "200:0":
                 return ("c08-mirror", f"entry {i}: mirror endpoint answered 200 with allowed=false")
+    over = m.get("maxbatch", "").isdigit() and len(dec) > int(m["maxbatch"])
     for key in ("batch_rest", "batch_grpc"):
         b = impl.get(key, "")
         got = [x.split(",")[0] for x in b.split(";")] if b and not b.startswith(("status", "err")) else None
+        if over:
+            # more entries than limit.max_batch_check_size: rejected as a whole, as a client error
+            if got is not None or b not in ("status400", "err:InvalidArgument"):
+                return ("c08-batch-limit", f"{key}: a batch of {len(dec)} entries (limit {m['maxbatch']}) answered {b[:80]}")
+            continue
         if got is None:
             return ("c08-batch", f"{key} failed as a whole: {b}")
         if got != dec:
@@ -940,8 +946,11 @@ PROPS = {
                         "the mapping table is global by design"],
     },
     "C07": {
-        "lean_module": "Keto.Props.C07",
-        "theorems": ["Keto.Store.C07_static", "Keto.Store.C07_listAll", "Keto.Store.C07_each_once", "Keto.Store.C07_interleaved",
+        "lean_module": ["Keto.Props.C07", "Keto.Props.C07expand"],
+        "theorems": ["Keto.C07_expand_fault_free", "Keto.C07_expand_never_partial", "Keto.C07_expand_fault_iff",
+                     "Keto.C07_expand_single_fault", "Keto.C07_expand_single_fault_beyond", "Keto.C07_expand_fault_column",
+                     "Keto.C07_expand_fault_column_le", "Keto.expandF_nofault", "Keto.expandF_fault",
+                     "Keto.Store.C07_static", "Keto.Store.C07_listAll", "Keto.Store.C07_each_once", "Keto.Store.C07_interleaved",
                      "Keto.Store.C07_interleaved_histories", "Keto.Store.C07_negative_size_rejected",
                      "Keto.Store.C07_negative_size_rejected_api", "Keto.Store.C07_bad_token_rejected",
                      "Keto.Store.C07_bad_token_rejected_api"],
@@ -986,8 +995,12 @@ PROPS = {
         "assumptions": ["the abstraction of a request into steps that write only request-local state or publish a request-independent registry member is read off the code (facts: lazy getters, Init pre-warming, lock use), not derived mechanically"],
     },
     "C19": {
-        "lean_module": ["Keto.Props.C19"],
-        "theorems": ["Keto.C19_legacy", "Keto.C19_legacy_every_prefix", "Keto.C19_legacy_invalid_keeps", "Keto.C19_legacy_valid_takes_effect",
+        "lean_module": ["Keto.Props.C19", "Keto.Props.C19remove"],
+        "theorems": ["Keto.C19_legacy_with_removes", "Keto.C19_legacy_with_removes_every_prefix", "Keto.C19_legacy_with_removes_agrees",
+                     "Keto.C19_legacy_removed_gone", "Keto.C19_legacy_comes_back", "Keto.C19_opl_comes_back", "Keto.C19_legacy_remove_other",
+                     "Keto.C19_unrelated_reload_invisible_legacy", "Keto.C19_unrelated_reload_invisible_opl",
+                     "Keto.C19_rebuild_loses_last_good_counterexample",
+                     "Keto.C19_legacy", "Keto.C19_legacy_every_prefix", "Keto.C19_legacy_invalid_keeps", "Keto.C19_legacy_valid_takes_effect",
                      "Keto.C19_opl_single", "Keto.C19_opl_single_every_prefix", "Keto.C19_opl_global", "Keto.C19_opl_event",
                      "Keto.C19_opl_never_partial", "Keto.C19_opl_one_entry_per_file", "Keto.C19_opl_multi_counterexample",
                      "Keto.C19_atomic_step", "Keto.C19_lockUse_tie"],
@@ -1047,7 +1060,8 @@ PROPS = {
     "C08": {
         "lean_module": "Keto.Props.C08",
         "theorems": ["Keto.H.C08_agree", "Keto.H.C08_engine_results_ok", "Keto.H.C08_mirror_status",
-                     "Keto.H.C08_unknown_namespace_never_allowed", "Keto.H.C08_batch_pointwise", "Keto.H.C08_batch_decisions"],
+                     "Keto.H.C08_unknown_namespace_never_allowed", "Keto.H.C08_batch_pointwise", "Keto.H.C08_batch_decisions",
+                     "Keto.H.C08_batch_limit"],
         "streams": [{"name": "hcheck", "n": {"quick": 300, "thorough": 3000}, "oracle": oracle_c08, "thorough_seeds": 3},
                     {"name": "conc", "n": {"quick": 15, "thorough": 120}, "oracle": oracle_c08_conc, "thorough_seeds": 2}],
         "rule": "OPL configuration with relations, a traverse permission and a permission with !; random stored states (via the real mapper); entries with subject id / subject set / no subject, known and unknown namespaces, undeclared relations, names with separators and empty names, max-depth parameters; every entry through REST GET and POST (mirror and always-200), gRPC Check, and batches of 1-10 entries (10 = the configured maximum) through REST and gRPC batch check; request depths include values beyond 32 bits in the query string; the engine's own result for the mapped tuple is handed to the model; non-trivial = at least one allowed entry",
